@@ -8,8 +8,8 @@ from . import _difffam as FAM
 ID = 'C01'
 LEAN_TARGETS = ['Properties.C01']
 THEOREMS = ['Delta.C01_opcode_replay', 'Delta.C01_opcodes_root_list', 'Delta.C01_opcodes_root_tuple', 'Delta.C01_empty_identity', 'Delta.C01_self', 'Delta.C01_write_read', 'Delta.C01_N_set_in_tuple', 'Delta.C01_N_tuple_in_tuple',
-            'Delta.C01_scalars_roundtrip', 'Delta.C01_root_change_roundtrip', 'Delta.C01_flat_dict_roundtrip', 'Delta.C01_list_positional_roundtrip', 'Delta.C01_list_pairwise_roundtrip']
-RULE = ('tree-shaped pairs (generated values with 1-3 edits, flat lists with insert/delete/replace/move/duplicate, tuples edited in place, numeric arrays, flat dictionaries string -> scalar with keys added / removed / changed in value / changed in type at once) x '
+            'Delta.C01_scalars_roundtrip', 'Delta.C01_root_change_roundtrip', 'Delta.C01_flat_dict_roundtrip', 'Delta.C01_list_positional_roundtrip', 'Delta.C01_list_pairwise_roundtrip', 'Delta.C01_nested_dict_roundtrip']
+RULE = ('tree-shaped pairs (generated values with 1-3 edits, flat lists with insert/delete/replace/move/duplicate, tuples edited in place, numeric arrays, flat and nested dictionaries with string keys and scalar leaves, keys added / removed / changed in value / changed in type at every level) x '
         'zip_ordered_iterables x threshold_to_diff_deeper in {0,0.33,0.9} x verbose_level in {0,1,2} x view in {text,tree} x always_include_values, mutate=False; '
         'chains of <= 6 successive edits; ignore_order+report_repetition on lists of distinct scalars. t1 + Delta(DeepDiff(t1,t2)) is compared with t2 (== plus container '
         'types), inputs are snapshotted; the delta payload and the result are compared with the Lean model. distinct = distinct (t1, t2, config); non-trivial = t1 != t2')
@@ -184,6 +184,40 @@ def flat_dict_pairs(ctx, n):
     return out
 
 
+def nested_dict_pairs(ctx, n):
+    """nested dictionaries: string keys at every level, scalar leaves; keys added / removed / changed in value / in type (scalar <-> dict) at every level"""
+    fk = ['a', 'b', 'c', 'dd', 'x y', 'old_value', 'new_value', '', 'A', '_p', '1', "q'r"]
+    fv = [None, True, False, 0, 1, -3, 2.5, 'a', '', 'line1\nline2', b'x', 10**20]
+
+    def gen(depth):
+        if depth == 0 or ctx.rng.random() < 0.35:
+            return ctx.rng.choice(fv)
+        return {k: gen(depth - 1) for k in ctx.rng.sample(fk, ctx.rng.randint(0, 4))}
+
+    def edit(v, depth):
+        if not isinstance(v, dict):
+            c = ctx.rng.random()
+            return v if c < 0.5 else (ctx.rng.choice(fv) if c < 0.85 else gen(2))
+        out = {}
+        for k, x in v.items():
+            c = ctx.rng.random()
+            if c < 0.15:
+                continue
+            out[k] = edit(x, depth + 1) if c < 0.75 else (x if c < 0.9 else ctx.rng.choice(fv))
+        for k in ctx.rng.sample(fk, ctx.rng.randint(0, 2)):
+            out.setdefault(k, gen(2))
+        if ctx.rng.random() < 0.25:
+            out = dict(sorted(out.items(), key=lambda kv: ctx.rng.random()))
+        return out
+
+    res = []
+    for _ in range(n):
+        d1 = {k: gen(3) for k in ctx.rng.sample(fk, ctx.rng.randint(0, 5))}
+        res.append((d1, edit(copy.deepcopy(d1), 0)))
+        ctx.count('nested_dict_pairs')
+    return res
+
+
 def strict_eq_safe(a, b):
     try:
         return strict_eq(a, b)
@@ -206,6 +240,7 @@ def run(ctx, impl_only=False):
         pairs.append((w(t), w(u)))
     pairs += FAM.rich_pairs(ctx, n // 3)           # Decimal, bytes, aware datetimes, date, time, timedelta, UUID, complex, frozenset leaves
     pairs += flat_dict_pairs(ctx, n // 2)          # the domain of C01_flat_dict_roundtrip
+    pairs += nested_dict_pairs(ctx, n // 2)        # the domain of C01_nested_dict_roundtrip
     lines, metas = [], []
     nsp = len(special_pairs())
     for i, (t1, t2) in enumerate(pairs):
